@@ -31,6 +31,7 @@ type histLattice struct {
 	count int64
 	dec   func(i int64) []int
 	skip  func(a []int) bool
+	noH2  bool // no three-call histories on this lattice (cost)
 }
 
 func histLattices(thorough bool) []histLattice {
@@ -43,6 +44,7 @@ func histLattices(thorough bool) []histLattice {
 		return false
 	}
 	ls := []histLattice{
+		{name: "1x1{-2..2}", r: 1, c: 1, count: 5, dec: func(i int64) []int { return lat.Decode(i, 1, 1, lat.E5) }},
 		{name: "2x2{-1,0,1}", r: 2, c: 2, count: lat.Pow(3, 4), dec: func(i int64) []int { return lat.Decode(i, 2, 2, lat.E3) }},
 		{name: "3x3{0,1}", r: 3, c: 3, count: lat.Pow(2, 9), dec: func(i int64) []int { return lat.Decode(i, 3, 3, lat.E2) }},
 		{name: "3x2{0,1}", r: 3, c: 2, count: lat.Pow(2, 6), dec: func(i int64) []int { return lat.Decode(i, 3, 2, lat.E2) }},
@@ -61,7 +63,7 @@ func histLattices(thorough bool) []histLattice {
 				return true
 			}},
 			histLattice{name: "4x2{0,1}", r: 4, c: 2, count: lat.Pow(2, 8), dec: func(i int64) []int { return lat.Decode(i, 4, 2, lat.E2) }},
-			histLattice{name: "4x4sym{0,1}", r: 4, c: 4, count: lat.Pow(2, 10), dec: func(i int64) []int { return lat.DecodeSym(i, 4, lat.E2) }, skip: func(a []int) bool { return !zeroDiag4(a) }},
+			histLattice{name: "4x4sym{0,1}", noH2: true, r: 4, c: 4, count: lat.Pow(2, 10), dec: func(i int64) []int { return lat.DecodeSym(i, 4, lat.E2) }, skip: func(a []int) bool { return !zeroDiag4(a) }},
 		)
 	}
 	return ls
@@ -147,16 +149,22 @@ func runHistories(rn *runner, idx *int64) {
 			over := map[string]bool{}
 			cur := histPlans(base, l.r, l.c, false, thorough)
 			warm := histPlans(base, l.r, l.c, true, thorough)
+			// three-call histories use the quick option alphabets (no Epsilon / ComputeU pass-through)
+			cur3 := histPlans(base, l.r, l.c, false, false)
+			warm3 := histPlans(base, l.r, l.c, true, false)
 			for pi, p := range cur {
 				if f := os.Getenv("C05_ROUTINE"); f != "" && f != p.routine {
 					continue
 				}
-				var wp plan
-				for _, w := range warm {
-					if w.routine == p.routine {
-						wp = w
+				find := func(ps []plan) plan {
+					for _, w := range ps {
+						if w.routine == p.routine {
+							return w
+						}
 					}
+					return plan{}
 				}
+				wp := find(warm)
 				// earlier calls: (option set, input)
 				var prev []Step
 				for _, o := range wp.opts {
@@ -195,17 +203,18 @@ func runHistories(rn *runner, idx *int64) {
 							nH1++
 						}
 					}
-					// H2
-					if thorough {
-						for _, s1 := range prev {
-							if s1.Input != "warm" {
-								continue
+				}
+				// H2
+				if thorough && !l.noH2 {
+					c3, w3 := find(cur3), find(warm3)
+					for _, o := range c3.opts {
+						for _, o1 := range w3.opts {
+							for _, o2 := range w3.opts {
+								do(o, []Step{{o1, "warm"}, {o2, "warm"}})
+								nH2++
 							}
-							for _, s2 := range prev {
-								if s2.Input == "reduced" {
-									continue
-								}
-								do(o, []Step{s1, s2})
+							for _, o2 := range c3.opts {
+								do(o, []Step{{o1, "warm"}, {o2, "same"}})
 								nH2++
 							}
 						}
@@ -232,25 +241,27 @@ func (cs *Case) optLabel() string {
 	for _, st := range cs.Hist {
 		hs = append(hs, optName(st.Opts)+"@"+st.Input)
 	}
-	return "after(" + strings.Join(hs, ";") + ")->" + optName(cs.Opts)
+	return "after(" + strings.Join(hs, ";") + ")then(" + optName(cs.Opts) + ")"
 }
 
 var histMemoMu sync.Mutex
-var histMemo = map[string][2]string{}
+var histMemo = map[string][3]string{}
 
 // minimiseHist coarsens the key of a failing history case: if the judged call fails in the same
 // way as a first call on a fresh object, the key is that of the plain case; otherwise earlier
 // calls, option tokens of the judged call and of the earlier calls are dropped and inputs are
 // replaced by the warm-up matrix as long as the same failure remains. The result is memoised
 // per configuration (routine, options, history, element type, class, failure): one defect
-// gives a handful of keys.
-func minimiseHist(cs *Case, class, what string) (string, string) {
+// gives a handful of keys. A failure of the buffer handling that also shows when the judged
+// input is replaced by the fixed warm-up matrix does not depend on the input: its class is
+// reported as "any-input".
+func minimiseHist(cs *Case, class, what string) (string, string, string) {
 	mk := fmt.Sprintf("%s|%s|%s|%s|%s", cs.Routine, cs.optLabel(), cs.Elem, class, what)
 	histMemoMu.Lock()
 	r, ok := histMemo[mk]
 	histMemoMu.Unlock()
 	if ok {
-		return r[0], r[1]
+		return r[0], r[1], r[2]
 	}
 	fails := func(t *Case) bool {
 		out := runCase(t, budgetStage1(max(cs.R, cs.C)))
@@ -274,20 +285,28 @@ func minimiseHist(cs *Case, class, what string) (string, string) {
 	cur := *cs
 	cur.Hist = append([]Step{}, cs.Hist...)
 	// a first call on a fresh object fails alike: not a history defect
+	// (replacing the result buffers before the judged call corresponds to a first call with
+	// caller-allocated junk-filled buffers)
 	plain := cur
 	plain.Hist = nil
 	if hasTok(plain.Opts, "Swap") {
 		toks := strings.Split(plain.Opts, ",")
 		for i, t := range toks {
 			if t == "Swap" {
-				plain.Opts = dropTok(plain.Opts, i)
+				toks[i] = "Junk"
 			}
 		}
+		plain.Opts = strings.Join(toks, ",")
 	}
 	var o, e string
-	if fails(&plain) {
+	if len(cs.Hist) == 0 {
+		o, e = minimise(&cur, what)
+		o = optName(o)
+	} else if fails(&plain) {
 		o, e = minimise(&plain, what)
 		o = optName(o)
+		// a first-call failure seen through a history: key of the first call
+		cur = plain
 	} else {
 		// drop earlier calls
 		for i := 0; i < len(cur.Hist) && len(cur.Hist) > 1; {
@@ -344,8 +363,20 @@ func minimiseHist(cs *Case, class, what string) (string, string) {
 		}
 		o = cur.optLabel()
 	}
+	if len(cur.Hist) > 0 || hasTok(cur.Opts, "Junk") || hasTok(cur.Opts, "JunkNaN") {
+		t := cur
+		w := warmFor(cs.Routine, cs.Opts, cs.R, cs.C)
+		t.Base = make([]int, len(w.V))
+		for i, v := range w.V {
+			t.Base[i] = int(v)
+		}
+		t.Graded, t.Exp2, t.Family = 0, 0, ""
+		if fails(&t) {
+			class = "any-input"
+		}
+	}
 	histMemoMu.Lock()
-	histMemo[mk] = [2]string{o, e}
+	histMemo[mk] = [3]string{o, e, class}
 	histMemoMu.Unlock()
-	return o, e
+	return o, e, class
 }
